@@ -33,6 +33,9 @@ ATTRS = {'sequence_number': ['number'], 'channel_prefix': ['channel'], 'midi_por
          'key_signature': ['key'], 'sequencer_specific': ['data']}
 
 
+_ORDER = [0]
+
+
 def real_attrs(t, v):
     """Spec values -> keyword arguments of the real class."""
     if t in TEXT_ATTR:
@@ -82,7 +85,12 @@ def build(t, v, time=0):
     import mido
     if t == 'unknown_meta':
         return mido.UnknownMetaMessage(v[0], data=tuple(v[1:]), time=time)
-    return mido.MetaMessage(t, time=time, **real_attrs(t, v))
+    # (the order in which the attributes are given rotates: MetaWire.MetaEncode is a function of the values)
+    kw = dict(real_attrs(t, v), time=time)
+    names = list(kw)
+    _ORDER[0] += 1
+    order = [names, names[::-1], ['time'] + names[:-1], sorted(names)][_ORDER[0] % 4]
+    return mido.MetaMessage(t, **{n: kw[n] for n in order})
 
 
 def through_track(msg_bytes, delta, **kw):
